@@ -583,11 +583,11 @@ def build_file(rng: random.Random, pg: G.ProgramGen, visible: List[G.Schema], id
     return s
 
 
-def build_program(rng: random.Random) -> Prog:
+def build_program(rng: random.Random, nested_import_p: float = 0.07) -> Prog:
     r = rng
     shape = r.choices([s for s, _ in SHAPE_WEIGHTS], [w for _, w in SHAPE_WEIGHTS])[0]
     traditional = r.random() < 0.5
-    allow_nested = r.random() < 0.07
+    allow_nested = r.random() < nested_import_p
     feats: Set[str] = set()
     go = G.GenOpts(allow_ext=not traditional, max_depth=r.choice([1, 2, 3, 3]), max_fields=r.choice([4, 6]), max_bits=r.choice([600, 2000, 4000]))
     pg = G.ProgramGen(r, G.ProgOpts(gen=go))
@@ -661,7 +661,7 @@ def build_program(rng: random.Random) -> Prog:
         for kd in kinds:
             feats.add("xfile-" + kd)
         if any(d.parent is not None for d in cross_refs(s)):
-            feats.add("xfile-nested(KF-nested-import)")
+            feats.add("xfile-nested")
     feats.add(f"depth{max(max_depth(s) for s in order)}")
     files = main.all_files()
     texts = G.program_files(main, r)
@@ -1597,8 +1597,12 @@ def check(run: common.Run, drv: Any, rng: random.Random, tier: str) -> None:
         if env.rt_error:
             run.notes["runtime_build_error"] = env.rt_error
         try:
-            witnesses(run, env)
-            progs = [build_program(rng) for _ in range(n)]
+            confirmed = witnesses(run, env)
+            # references to types nested in a message of an imported file: rare while KF-nested-import is open (a failing import
+            # masks the other Python checks of the program), frequent once its witness no longer fails
+            nested_p = 0.07 if confirmed.get("KF-nested-import") else 0.5
+            run.notes["nested_import_reference_probability"] = nested_p
+            progs = [build_program(rng, nested_p) for _ in range(n)]
             jobs = [job_of(p) for p in progs]
             ex = concurrent.futures.ThreadPoolExecutor(WORKERS)
             try:
